@@ -348,6 +348,82 @@ def run(tier, seed):
     broke = broke or b2
     concrete = concrete or c2
 
+  # ---- acknowledged metadata writes under overlap: a metadata update of trial 1 (or an algorithm's metadata delta) overlaps
+  # another call that rewrites the same trial / study (complete, measurement, stop, a second update of other keys, a state
+  # change); every schedule "A takes j steps, B completes, A finishes".  Whatever the order, each (namespace, key) written by a
+  # call that reported success must be read back with the value written, and keys nobody wrote must not appear.
+  if svc is not None:
+    try:
+      from harness import conc, svcmon
+    except ImportError:
+      conc = None
+    if conc is not None:
+      r2 = C.rng(seed, 'c10-overlap')
+      prefix = [('CreateStudy', 1, 1, False, 'SS_ACTIVE', [(1, True)]), ('SuggestTrials', 1, 1, 1, 2, ('deliver', [10, 20], [], [])),
+                ('UpdateMetadata', 1, 1, [('', 'old', 0, 's0')], [(1, ('', 'old', 0, 't0'))])]
+      writer_kinds = [
+          ('UpdateMetadata', 1, 1, [('', 'u', 0, 'a')], [(1, ('', 'k', 0, 'v'))]),
+          ('UpdateMetadata', 1, 1, [('a:b', 'u', 0, 'a2')], [(1, ('x', 'k', 0, 'v2'))]),
+          ('SuggestTrials', 1, 1, 2, 1, ('deliver', [33], [(':designer_policy_v0', 's', 0, 'x')], [(1, (':designer_policy_v0', 'k', 0, 'p'))])),
+          ('CheckEarlyStop', True, 1, 1, 1, ('decide', [(1, False)], [(':designer_policy_v0', 'e', 0, 'z')], [(1, (':designer_policy_v0', 'ek', 0, 'q'))])),
+      ]
+      other_kinds = [
+          ('CompleteTrial', 1, 1, 1, [(1, 2)], False), ('CompleteTrial', 1, 1, 1, [], True), ('AddTrialMeasurement', 1, 1, 1, [(1, 3)]),
+          ('StopTrial', 1, 1, 1), ('UpdateMetadata', 1, 1, [('', 'u2', 0, 'b')], [(1, ('', 'k2', 0, 'w'))]),
+          ('SetStudyState', 1, 1, 'SS_ACTIVE'), ('CreateTrial', 1, 1, 70, 'REQUESTED', [], []),
+      ]
+      combos = [(w_, o_) for w_ in writer_kinds for o_ in other_kinds]
+      if tier == 'quick':
+        r2.shuffle(combos)
+        must = [(writer_kinds[0], o_) for o_ in other_kinds[:4]]
+        combos = must + [c_ for c_ in combos if c_ not in must][:8]
+
+      def written(rpc):
+        if rpc[0] == 'UpdateMetadata':
+          return list(rpc[3]), list(rpc[4])
+        if rpc[0] in ('SuggestTrials', 'CheckEarlyStop'):
+          return list(rpc[-1][2]), list(rpc[-1][3])
+        return [], []
+      for (w_, o_) in combos:
+        for be_ in (['ram'] if tier == 'quick' else ['ram', 'sqlmem']):
+          seen_ = set()
+          for first in (0, 1):
+            for j in range(0, 10):
+              rpcs = [w_, o_]
+              res = conc.run_concurrent(be_, prefix, rpcs, [first] * j + [1 - first] * 40 + [first] * 40)
+              ex = tuple(res['executed'])
+              if ex in seen_:
+                continue
+              seen_.add(ex)
+              rep.case({'overlap': [w_[0], o_[0]], 'schedule': list(ex)[:12]}, 0 < j)
+              rep.count('overlap_%s+%s' % (w_[0], o_[0]))
+              obj = {'backend': be_, 'prefix': prefix, 'rpcs': rpcs, 'schedule': list(ex), 'outcomes': [o2[:2] for o2 in (res['outcomes'] or [])]}
+              if res['deadlock']:
+                concrete = True
+                rep.violation('deadlock while a metadata update overlaps %s' % o_[0], obj)
+                continue
+              node = svcmon.nodes_of(res['snapshot']).get((1, 1))
+              if node is None:
+                continue
+              exp_s, exp_t = {('', 'old', 0): 's0'}, {('', 'old', 0): 't0'}
+              for rpc, out in zip(rpcs, res['outcomes']):
+                if out[0] != 'Done':
+                  continue
+                ws, wt = written(rpc)
+                for kv in ws:
+                  exp_s[tuple(kv[:3])] = kv[3]
+                for tid_, kv in wt:
+                  if tid_ == 1:
+                    exp_t[tuple(kv[:3])] = kv[3]
+              got_s = {tuple(kv[:3]): kv[3] for kv in node['study']['md']}
+              t1 = [t_ for t_ in node['trials'] if t_['id'] == 1]
+              got_t = {tuple(kv[:3]): kv[3] for kv in t1[0]['md']} if t1 else None
+              # the two writers never write the same key, so the expectation does not depend on the order
+              if got_s != exp_s or (got_t is not None and got_t != exp_t):
+                concrete = True
+                rep.violation('metadata written by a successful call is missing or changed after it overlapped %s' % o_[0],
+                              dict(obj, expected_study=sorted(map(list, exp_s.items())), stored_study=sorted(map(list, got_s.items())),
+                                   expected_trial_1=sorted(map(list, exp_t.items())), stored_trial_1=sorted(map(list, (got_t or {}).items()))))
   C.settle_broken(rep, broke, concrete)
   return rep.finish()
 
